@@ -31,3 +31,66 @@ package provider
 //@   loop 3 invariant unset: !#indexFound ==> #acsUrl == "" && #protocolBinding == ""
 //@   loop 3 invariant best: #indexFound ==> exists k :: 0 <= k && k <= $ri && #acsUrl == acs[k].Location && #protocolBinding == acs[k].Binding &&
 //@             #index == atoi(acs[k].Index) && (forall j :: 0 <= j && j <= $ri ==> #index <= atoi(acs[j].Index))
+//@
+//@ ## ---- C19: issuer validation and derivation (context.go) ----
+//@ pure validIssuer(s, insecure) = s != "" && urlParseOK(s) && urlHost(s) != "" &&
+//@             (urlScheme(s) == "https" || (insecure && urlScheme(s) == "http")) && urlFragment(s) == "" && urlQueryLen(s) == 0
+//@ pure dynIssuer(host, path, insecure) = (insecure ? "http" : "https") + "://" + host +
+//@             ((len(path) > 0 && !hasPrefix(path, "/")) ? "/" + path : path)
+//@ pure hv(r, headers, j) = lookup(r.Header, headers[j])
+//@ pure goodHeader(r, headers, j) = fwdOK(base(hv(r, headers, j)), len(hv(r, headers, j))) && fwdHostsLen(base(hv(r, headers, j)), len(hv(r, headers, j))) > 0
+//@ pure firstHost(r, headers, j) = fwdHost0(base(hv(r, headers, j)), len(hv(r, headers, j)))
+//@
+//@ func provider.ValidateIssuerPath
+//@   property C19
+//@   requires issuer != nil
+//@   ensures no-fragment-no-query: (result == nil) <==> (issuer.Fragment == "" && queryLenOf(issuer) == 0)
+//@
+//@ func provider.devLocalAllowed
+//@   property C19
+//@   requires url != nil
+//@   ensures http-only-when-insecure: result <==> (allowInsecure && url.Scheme == "http")
+//@
+//@ func provider.ValidateIssuer
+//@   property C19
+//@   ensures valid-iff: (result == nil) <==> validIssuer(issuer, allowInsecure)
+//@   canary canary-http-always-ok: urlScheme(issuer) == "http" && urlParseOK(issuer) && urlHost(issuer) != "" && issuer != "" && urlFragment(issuer) == "" && urlQueryLen(issuer) == 0 ==> result == nil
+//@
+//@ func provider.StaticIssuer$1
+//@   names fn, err
+//@   property C19
+//@   ensures constructed-iff-valid: (err == nil) <==> validIssuer(deref(issuer), allowInsecure)
+//@   ensures returns-constant-closure: err == nil ==> isClosure(fn, "provider.StaticIssuer$1$1", deref(issuer))
+//@   ensures nothing-on-error: err != nil ==> fn == 0
+//@
+//@ func provider.StaticIssuer$1$1
+//@   property C19
+//@   ensures constant: result == deref(issuer)
+//@
+//@ func provider.dynamicIssuer
+//@   property C19
+//@   ensures scheme-host-path: result == dynIssuer(issuer, path, allowInsecure)
+//@
+//@ func provider.hostFromForwarded
+//@   names host, ok
+//@   property C19
+//@   requires r != nil
+//@   ensures first-good-header: ok ==> (exists k :: 0 <= k && k < len(headers) && goodHeader(r, headers, k) &&
+//@             (forall j :: 0 <= j && j < k ==> !goodHeader(r, headers, j)) && host == firstHost(r, headers, k))
+//@   ensures fallback: !ok ==> host == "" && (forall j :: 0 <= j && j < len(headers) ==> !goodHeader(r, headers, j))
+//@   loop 1 invariant range: -1 <= $ri && $ri < len(headers)
+//@   loop 1 invariant none-good-so-far: forall j :: 0 <= j && j <= $ri ==> !goodHeader(r, headers, j)
+//@
+//@ func provider.issuerFromForwardedOrHost$1$1
+//@   property C19
+//@   requires r != nil && deref(c) != nil
+//@   ensures derived-from-headers-or-host-only:
+//@             (exists k :: 0 <= k && k < len(deref(c).headers) && goodHeader(r, deref(c).headers, k) && (forall j :: 0 <= j && j < k ==> !goodHeader(r, deref(c).headers, j)) &&
+//@                 result == dynIssuer(firstHost(r, deref(c).headers, k), deref(path), deref(allowInsecure))) ||
+//@             ((forall j :: 0 <= j && j < len(deref(c).headers) ==> !goodHeader(r, deref(c).headers, j)) && result == dynIssuer(r.Host, deref(path), deref(allowInsecure)))
+//@
+//@ func provider.WithAllowInsecure$1
+//@   property C19
+//@   assigns C:bool
+//@   requires p != nil
+//@   ensures sets-insecure: p.insecure && result == nil
